@@ -612,7 +612,7 @@ def attribute_values(ctx):
             got = repr(e)
         ok = (isinstance(got, str) and str(got) == value) if isinstance(value, str) else \
             (type(got) is type(value) and got == value)
-        if not ok and not (name == "as" and lex == "" and got in (None, "absent", "no object")):
+        if not ok:
             ctx.fail("an attribute value of a reply is not decoded by its XSD type", meta, repr(got), repr(value))
         env = wsdlkit.envelope_bytes(req.service.f({"_" + name: value}))
         node = xmlread.find1(xmlread.find1(xmlread.find1(xmlread.parse(env), "Body"), "f"), "o")
